@@ -111,6 +111,8 @@ def run_check(check, tier, seed, replay_path=None):
         merged['keys'].update(res.get('keys', []))
         for v in res.get('violations', []):
             v['hashseed'] = pi['hashseed']
+            v['job'] = pi['job']
+            v['job_tag'] = pi['tag']
             merged['violations'].append(v)
         for k, n in res.get('viol_counts', {}).items():
             merged['viol_counts'][k] = merged['viol_counts'].get(k, 0) + n
@@ -207,10 +209,30 @@ def run_check(check, tier, seed, replay_path=None):
             confirmed.append((sig, v))
             continue
         if not res.get('violations'):
-            flaky += 1
-            v['flaky'] = True
+            v['needs_history'] = True
             continue
         confirmed.append((sig, v))
+    # a violation that does not show when its case is replayed alone in a fresh process may need the
+    # history of the shard it was seen in (state shared between objects or across calls): re-run that
+    # shard in a fresh process and look for the same signature again
+    hist = [(sig, vs[0]) for (sig, vs) in to_process if vs[0].get('needs_history') and vs[0].get('job')]
+    hjobs = {}
+    for sig, v in hist:
+        hjobs.setdefault(v['job_tag'], (v['job'], v['hashseed']))
+    hres = run_jobs([('rerun.' + t, dict(j), hs) for t, (j, hs) in hjobs.items()], outdir, tp['shard_timeout']) if hjobs else []
+    rerun_sigs = {}
+    for pi, res in hres:
+        if res and res.get('ok'):
+            rerun_sigs[pi['tag'][len('rerun.'):]] = set(x['sig'] for x in res.get('violations', [])) | set(res.get('viol_counts', {}))
+    for sig, v in hist:
+        if sig in rerun_sigs.get(v['job_tag'], set()):
+            v = dict(v)
+            v['no_replay'] = True
+            v['case'] = {'kind': 'shard-rerun', 'job': v['job'], 'hashseed': v['hashseed'], 'sig': sig, 'first_seen_case': v.get('case'),
+                         'note': 'needs the call history of its shard: the case alone, in a fresh process, is clean'}
+            confirmed.append((sig, v))
+        else:
+            flaky += 1
     for i, (sig, v) in enumerate(confirmed):
         if v.get('no_replay'):
             continue
@@ -325,7 +347,13 @@ def replay_file(check, path):
         e = _env(hs)
         return subprocess.call([PY, '-W', 'ignore', '-m', 'rv.cli', check, '--replay', path], cwd=VERIF_DIR, env=e)
     mod = checks.module_of(check)
-    vs = mod.replay(d['case'], check, d.get('seed', 0))
+    if d['case'].get('kind') == 'shard-rerun':
+        res = mod.run_shard(dict(d['case']['job']))
+        sigs = set(x['sig'] for x in res.get('violations', [])) | set(res.get('viol_counts', {}))
+        vs = [x for x in res.get('violations', []) if x['sig'] == d['case']['sig']] or \
+            ([{'symptom': d.get('symptom'), 'detail': 'signature seen again'}] if d['case']['sig'] in sigs else [])
+    else:
+        vs = mod.replay(d['case'], check, d.get('seed', 0))
     if vs:
         for v in vs:
             print('VIOLATION property=%s replay=%s' % (check, path))
